@@ -350,6 +350,7 @@ class World:
             if end[0] == "raise":
                 exc = self.new_fault(f"worker r{rm.rid}[{rec.idx}]", wspec.get("fault_kind", 0))
                 tm.exc = exc
+                tm.faults.append(exc)
                 pm.injected.append(exc)
                 pm.fault_seen = True
                 raise exc
@@ -424,6 +425,7 @@ class World:
             if tm is not None:
                 tm.pm.injected.append(exc)
                 tm.pm.fault_seen = True
+                tm.faults.append(exc)
                 if tm.exc is None:
                     tm.exc = exc
             return exc
